@@ -65,6 +65,7 @@ struct NodeDesc {
     int type = MT_Pin; bool reversed = false; int fF = 0, fM = 0; int parent = -1; // -1: Ground; else index into nodes
     uint64_t sub = 0;        // sub-seed: frames, mass properties, parameters
     bool comAtOrigin = false;
+    bool massless = false;    // Body::Massless (only ever set for bodies that have children)
     std::string key(bool euler) const {
         char b[96];
         snprintf(b, sizeof b, "%s/%s/F%dM%d/%s", mobName(type), reversed ? "rev" : "fwd", fF, fM,
@@ -93,6 +94,7 @@ struct GenOpts {
     bool allowWeld = true;
     bool forceCycle = true;        // node 0 cycles deterministically through type x reversed x euler cells by case index
     double pLoneParticle = 0.04;   // Translation/Ground/identity frames/no children/forward cell
+    double pMasslessInterior = 0;  // probability that a body with >=2 children (half that with 1 child) is massless
 };
 
 inline ModelDesc randomDesc(Rng& r, const GenOpts& o, long caseIdx) {
@@ -149,6 +151,12 @@ inline ModelDesc randomDesc(Rng& r, const GenOpts& o, long caseIdx) {
         else n.parent = r.integer(-1, k - 1);
         d.nodes.push_back(n);
     }
+    if (o.pMasslessInterior > 0) {
+        for (size_t k = 0; k < d.nodes.size(); ++k) {
+            int nch = 0; for (auto& c : d.nodes) if (c.parent == (int)k) ++nch;
+            if (nch >= 2 ? r.coin(o.pMasslessInterior) : nch == 1 ? r.coin(o.pMasslessInterior / 2) : false) d.nodes[k].massless = true;
+        }
+    }
     return d;
 }
 
@@ -169,7 +177,8 @@ struct Model {
             const NodeDesc& n = d.nodes[k];
             Rng r(n.sub);
             Transform X_PF = randFrame(r, n.fF), X_BM = randFrame(r, n.fM);
-            Body::Rigid body(randMassProps(r, n.comAtOrigin));
+            MassProperties mprops = randMassProps(r, n.comAtOrigin);   // drawn even when unused: keeps the random stream of the node
+            Body::Rigid body(n.massless ? MassProperties(0, Vec3(0), Inertia(0)) : mprops);
             MobilizedBody::Direction dir = n.reversed ? MobilizedBody::Reverse : MobilizedBody::Forward;
             MobilizedBody& P = parentOf((int)k);
             MobilizedBody mb;
